@@ -107,13 +107,33 @@ fn oracle_docs(rep: &mut Report, ex: &mut Expat, rng: &mut Rng, n: usize) {
             _ => native_el(shape, &b),
         };
         let name = if carrier == "text-element" { "text" } else { shape };
-        let bb: [f64; 4] = if carrier == "text-element" { [b[0], b[1], b[0], b[1]] } else { b };
-        if carrier == "text-element" {
+        let mut bb: [f64; 4] = if carrier == "text-element" { [b[0], b[1], b[0], b[1]] } else { b };
+        // a <text> element placed beside an (invisible) reference box: its anchor is the point the relspec
+        // gives; an explicit text-loc still decides the alignment, and without one the side the text stands on does
+        let mut prelude = String::new();
+        let mut derived_loc: Option<&'static str> = None;
+        if carrier == "text-element" && edge_loc.is_none() && rng.chance(1, 3) {
+            let z = [b[0] - 20.0, b[1] - 30.0, b[0] - 20.0 + 10.0, b[1] - 30.0 + 8.0];
+            prelude = format!("<box id=\"z\" xy=\"{} {}\" wh=\"10 8\"/>\n  ", fstr_ref(z[0]), fstr_ref(z[1]));
+            let gap = rng.range(0, 8) as f64 / 2.0;
+            let (d, px, py, side) = match rng.below(4) {
+                0 => ("h", z[2] + gap, (z[1] + z[3]) / 2.0, "r"),
+                1 => ("H", z[0] - gap, (z[1] + z[3]) / 2.0, "l"),
+                2 => ("v", (z[0] + z[2]) / 2.0, z[3] + gap, "b"),
+                _ => ("V", (z[0] + z[2]) / 2.0, z[1] - gap, "t"),
+            };
+            bb = [px, py, px, py];
+            attrs.push_str(&format!(" {}", in_attr(rng, "xy", &format!("#z|{d} {}", fstr_ref(gap)))));
+            if rng.chance(1, 4) { derived_loc = Some(side); }
+            st.tally(if derived_loc.is_some() { "text-element=relative,derived-loc" } else { "text-element=relative,explicit-loc" });
+        } else if carrier == "text-element" {
             attrs.push_str(&format!(" {} {}", in_attr(rng, "x", &fstr_ref(b[0])), in_attr(rng, "y", &fstr_ref(b[1]))));
         } else {
             for (k, v) in &geo { attrs.push(' '); attrs.push_str(&in_attr(rng, k, v)); }
         }
-        attrs.push_str(&format!(" {} {}", in_attr(rng, "text-loc", loc), in_attr(rng, "text-offset", &fstr_ref(off))));
+        let loc: &str = match derived_loc { Some(l) => l, None => loc };
+        if derived_loc.is_none() { attrs.push_str(&format!(" {}", in_attr(rng, "text-loc", loc))); }
+        attrs.push_str(&format!(" {}", in_attr(rng, "text-offset", &fstr_ref(off))));
         if outside_cls { attrs.push_str(" class=\"d-text-outside\""); }
         // further text-specific attributes: all must move off the shape; text-dxy / -dx / -dy shift the anchor
         let (mut tdx, mut tdy) = (0.0f64, 0.0f64);
@@ -133,7 +153,7 @@ fn oracle_docs(rep: &mut Report, ex: &mut Expat, rng: &mut Rng, n: usize) {
             "cdata" if !content_text.contains("]]>") => format!("<{name}{attrs}><![CDATA[{content_text}]]></{name}>"),
             _ => format!("<{name}{attrs}>{}</{name}>", in_text(rng, &content_text)),
         };
-        let doc = format!("<svg>\n  {el}\n</svg>");
+        let doc = format!("<svg>\n  {prelude}{el}\n</svg>");
         st.case(&doc, true, || json!({"document": doc, "author_lines": lines}));
         st.tally(&format!("carrier={carrier}"));
         st.tally(&format!("lines={}", lines.len()));
